@@ -59,7 +59,7 @@ ASSUMPTIONS = [
     "set accepts any Mapping (dict, OrderedDict, MappingProxyType are generated); update_defaults needs a mutable mapping on the unchanged tree (it assigns into it), so only dicts are passed there",
     "wide / deep cases: 3000..20000 sibling keys with alternating spellings through set, update_defaults, with-blocks, user files and refresh; nesting depth 120..180 (far below the interpreter recursion limit that bounds the recursive update on the unchanged tree)",
 ]
-BUDGET = {"quick": {"soft_s": 100}, "thorough": {"soft_s": 700}}
+BUDGET = {"quick": {"soft_s": 300}, "thorough": {"soft_s": 1200}}
 MIN_EVALUATIONS = {"quick": 500, "thorough": 1500}
 REQUIRED_COUNTERS = ["eval:neutral_call_changed_state", "eval:user_directory_from_environment", "eval:get_vs_model", "eval:refresh_vs_defaults", "eval:refresh_vs_defaults_and_user_files", "eval:with_protocol", "eval:with_restore", "eval:device_rejected_unchanged", "eval:spelling_single_entry"]
 EXHAUSTIVE = {"quick": False, "thorough": False}  # bounded-exhaustive part + random part
